@@ -13,7 +13,16 @@ Decided (necessary conditions, all read from the syntax of client.py and _api.py
       `max_reconnect_attempts` consecutive drops, and leads back to a fresh request without touching the cursor.
   R4  server cursor chain: request parameter -> subscribe_events unchanged; emitted id is the sequence of the
       stored event whose envelope is the payload of the same frame.
-Not decided: what httpx does with the bytes of a dropped connection (trusted: a partial line is never yielded as a
+  R5  resume positions: the request inputs whose value flows into the server's replay cursor are inventoried from
+      _stream_events (today: query `after_sequence`, header `last-event-id`, the header winning); every entry of the
+      client's stream request (params / headers, through named mappings, in-place fills, update(), module constants)
+      that the server reads as such a position must be the reader's cursor — the variable advanced when an event is
+      queued — converted only by str/int/f"{}", and evaluated for this request (no cursor assignment on a path from its
+      evaluation to the request that does not re-evaluate it).  The consumer-side cursor (EventStream's published
+      attribute, advanced when the iterator yields), the initial position, a constant or a value computed once before
+      the retry loop are violations: the server would replay events that are already queued.  Entries under names the
+      server does not read into its cursor are ignored.
+Not decided: default headers of a caller-supplied httpx client; what httpx does with the bytes of a dropped connection (trusted: a partial line is never yielded as a
 line), the stores' `sequence > after` semantics (C16), asyncio.Queue being FIFO, timing.
 """
 
@@ -48,7 +57,14 @@ EXPLANATION = (
     "that many consecutive drops; the path back to the request writes neither the cursor nor the queue. "
     "R4 server chain: query parameter -> int -> _resolve_event_stream -> subscribe_events unchanged; the id slot is the stored event's sequence and the data slot "
     "the dump of the same stored event's envelope. "
-    "NOT decided: byte-level behaviour of httpx on a dropped connection, store cursor semantics (C16), scheduling."
+    "R5 resume positions: the request inputs that flow (data dependence through locals of _stream_events; tests and comparisons are not followed) into the cursor handed to _resolve_event_stream are "
+    "inventoried (query `after_sequence` and header `last-event-id` today); every entry of the `params=`/`headers=` mappings of the client's stream request (dict literals, `**` spreads, named mappings with "
+    "their in-place fills and update() calls, module-level constants; `json=`/`data=`/`**kwargs`/a position inside the URL give an analysis error) whose name the server reads as a position (header names compared "
+    "case-insensitively) must denote the reader's own cursor — the variable the reader advances when it queues an event — through str/int/f-string only and through temporaries, and must be evaluated for this request: "
+    "on no CFG path from the statement that evaluates it to the request does the cursor move without the value being computed afresh. A position taken from the consumer-side cursor (the EventStream attribute its iterator "
+    "writes when it yields, or the property returning it), from the initial position, a constant, or computed once before the retry loop makes the server replay events already queued (duplicates, out of order) and is reported; "
+    "entries the server does not read into its cursor are not judged. "
+    "NOT decided: default headers of a caller-supplied httpx client, byte-level behaviour of httpx on a dropped connection, store cursor semantics (C16), scheduling."
 )
 TRUSTED = [
     "CPython ast",
@@ -999,8 +1015,287 @@ def run(chk) -> None:
            instance="slots", reason=why)
     chk.floor("C17.R4", "links of the server cursor chain", links, 5)
 
+    # ------------------------------------------------------------------ R5 every resume position sent is the reader's cursor
+    # server side: the request inputs whose value can flow (data dependence through locals) into the cursor handed to
+    # _resolve_event_stream; client side: the entries of every mapping the stream request carries; each entry the server reads
+    # as a position must be the reader's cursor, evaluated for this request.
+    inputs = _server_resume_inputs(se, A)
+    chk.floor("C17.R5", "request inputs that flow into the server's replay cursor (query `after_sequence`, header `last-event-id`)", len(inputs), 2)
+    for part, key, node in inputs:
+        if part not in ("query", "header"):
+            raise AnchorError(f"C17.R5: the server reads its replay cursor from the request {part} (`{ast.unparse(node)[:50]}`), which this rule does not model")
+    if any(k.arg is None for k in c.stream_call.keywords):
+        raise AnchorError("C17.R5: the stream request is called with `**kwargs`; what it sends cannot be inventoried")
+    for kwn in ("json", "data", "content", "cookies", "files"):
+        if kwarg(c.stream_call, kwn) is not None and not (isinstance(kwarg(c.stream_call, kwn), ast.Constant) and kwarg(c.stream_call, kwn).value is None):
+            raise AnchorError(f"C17.R5: the stream request carries `{kwn}=`, which this rule does not inventory")
+    rs = _Resume(c.gwe, c.cfg, V, c.stream_with, {prop.name, F}, lambda e: _const_str(c, e), c.m.tree)
+    q_entries = _entries(rs, kwarg(c.stream_call, "params"), c.stream_with, [c.stream_with])
+    h_entries = _entries(rs, kwarg(c.stream_call, "headers"), c.stream_with, [c.stream_with])
+    chk.floor("C17.R5", "entries of the stream request inventoried (3 query parameters + 1 header)", len(q_entries) + len(h_entries), 4)
+    url_e = c.stream_call.args[1] if len(c.stream_call.args) > 1 else kwarg(c.stream_call, "url")
+    if url_e is not None:
+        try:
+            url_lits = [str(v) for k_, v in _tokens(url_e, c.stream_with) if k_ == "lit"]
+        except AnchorError:
+            url_lits = []
+            chk.observe(f"C17.R5: the request URL `{ast.unparse(url_e)[:50]}` is not a readable template; a position embedded in it is not decided")
+        for part, key, _n in inputs:
+            if part == "query" and any(f"{key}=" in lit for lit in url_lits):
+                raise AnchorError(f"C17.R5: the request URL embeds `{key}=`; a resume position inside the URL is not modelled")
+    sent = 0
+    for part, key, snode in inputs:
+        if part == "query":
+            mine = [x for x in q_entries if x[0] == key]
+        else:
+            mine = [x for x in h_entries if x[0].lower() == key.lower()]
+        for k_, val, site, kills in mine:
+            sent += 1
+            lab = _position_origins(rs, val, site, kills)
+            ok5 = lab == {"cursor"}
+            chk.ob("C17.R5", f"the {part} `{k_}` of the stream request — read by the server into the cursor it replays from (`{ast.unparse(snode)[:50]}`) — is the reader's cursor `{V}` "
+                             f"as it stands when the request is made (`{ast.unparse(val)[:60]}`)", ok5, m=m, node=val, fn=c.reader, instance=f"resume-position:{part}:{key.lower()}",
+                   reason=_position_reason(lab, V, part, k_))
+    chk.floor("C17.R5", "resume positions the stream request sends (query `after_sequence`)", sent, 1)
+
     # ------------------------------------------------------------------ fixture: planted positives must be reported
     _fixture_selfcheck(chk)
+
+
+# ============================================================================ R5 helpers: resume positions
+
+
+class _Resume:
+    """What R5 needs of a reader: the function whose bindings are searched, the reader's CFG, the cursor variable, the request
+    statement, the attribute names of the consumer-side cursor, a resolver of constant keys, the module tree."""
+
+    def __init__(self, scope, cfg, V, request, consumer_attrs, const_str, module_tree=None):
+        self.scope, self.cfg, self.V, self.request, self.consumer_attrs, self.const_str, self.module_tree = scope, cfg, V, request, set(consumer_attrs), const_str, module_tree
+        self.vnodes = [n for a in ast.walk(scope) if isinstance(a, (ast.Assign, ast.AnnAssign, ast.AugAssign)) and getattr(a, "value", None) is not None
+                       and any(isinstance(t, ast.Name) and t.id == V for t in (a.targets if isinstance(a, ast.Assign) else [a.target])) for n in cfg.nodes_of(a)]
+
+
+def _data_parts(e: ast.AST, stop):
+    """Sub-expressions whose *value* can flow into the value of e: tests of conditional expressions and comparisons yield
+    truth values, not positions, and are skipped; nodes accepted by `stop` are yielded and not entered."""
+    if e is None:
+        return
+    if stop(e):
+        yield e
+        return
+    if isinstance(e, ast.Compare):
+        return
+    yield e
+    for fld, val in ast.iter_fields(e):
+        if isinstance(e, ast.IfExp) and fld == "test":
+            continue
+        for v in (val if isinstance(val, list) else [val]):
+            if isinstance(v, ast.AST):
+                yield from _data_parts(v, stop)
+
+
+_REQ_PARTS = {"query_params": "query", "headers": "header", "cookies": "cookie", "path_params": "path"}
+
+
+def _request_read(e: ast.AST, req: str):
+    """(part, key) when e reads one named input of the request object `req`; ('body', '*') for the body readers."""
+    if isinstance(e, ast.Await):
+        e = e.value
+    base = key = None
+    if isinstance(e, ast.Call) and isinstance(e.func, ast.Attribute) and e.func.attr in ("get", "getlist", "__getitem__") and e.args:
+        base, key = e.func.value, e.args[0]
+    elif isinstance(e, ast.Subscript):
+        base, key = e.value, e.slice
+    elif isinstance(e, ast.Call) and isinstance(e.func, ast.Attribute) and e.func.attr in ("json", "body", "form", "stream") and dotted(e.func.value) == req:
+        return ("body", "*")
+    if isinstance(base, ast.Attribute) and dotted(base.value) == req and base.attr in _REQ_PARTS:
+        if not (isinstance(key, ast.Constant) and isinstance(key.value, str)):
+            raise AnchorError(f"C17.R5: the server reads a request input under a computed name (`{ast.unparse(e)[:60]}`)")
+        return (_REQ_PARTS[base.attr], key.value)
+    return None
+
+
+def _server_resume_inputs(se: ast.AST, cursor: str) -> list[tuple[str, str, ast.AST]]:
+    """Request inputs whose value can flow into the local `cursor` of the endpoint `se`, through locals of `se`."""
+    params = [a.arg for a in se.args.posonlyargs + se.args.args if a.arg not in ("self", "cls")]
+    if not params:
+        raise AnchorError("C17.R5: the streaming endpoint has no request parameter")
+    req = params[0]
+    todo, seen, out = [cursor], set(), []
+    while todo:
+        nm = todo.pop()
+        if nm in seen:
+            continue
+        seen.add(nm)
+        if nm == req:
+            raise AnchorError("C17.R5: the whole request object flows into the server's replay cursor; its inputs cannot be inventoried")
+        for a in ast.walk(se):
+            if enclosing_function(a) is not se:
+                continue
+            vals = []
+            if isinstance(a, ast.Assign) and any(isinstance(x, ast.Name) and x.id == nm for t in a.targets for x in ([t] if isinstance(t, ast.Name) else t.elts if isinstance(t, (ast.Tuple, ast.List)) else [])):
+                vals = [a.value]
+            elif isinstance(a, (ast.AnnAssign, ast.AugAssign)) and isinstance(a.target, ast.Name) and a.target.id == nm and a.value is not None:
+                vals = [a.value]
+            elif isinstance(a, ast.NamedExpr) and a.target.id == nm:
+                vals = [a.value]
+            for v in vals:
+                for sub in _data_parts(v, lambda x: _request_read(x, req) is not None):
+                    r = _request_read(sub, req)
+                    if r is not None:
+                        if not any(o[0] == r[0] and o[1].lower() == r[1].lower() for o in out):
+                            out.append((r[0], r[1], sub))
+                    elif isinstance(sub, ast.Name) and isinstance(sub.ctx, ast.Load):
+                        todo.append(sub.id)
+    return out
+
+
+def _binders(rs: _Resume, name: str) -> list[ast.AST]:
+    """Statements of the scope that (re)bind the plain name."""
+    out = []
+    for a in ast.walk(rs.scope):
+        if isinstance(a, ast.Assign) and any(isinstance(t, ast.Name) and t.id == name for t in a.targets):
+            out.append(a)
+        elif isinstance(a, (ast.AnnAssign, ast.AugAssign)) and isinstance(a.target, ast.Name) and a.target.id == name and a.value is not None:
+            out.append(a)
+    return out
+
+
+def _entries(rs: _Resume, e: ast.AST | None, site, kills: list, depth: int = 4) -> list[tuple[str, ast.AST, ast.AST | None, list]]:
+    """(key, value expression, statement that evaluates the value, statements that re-evaluate it) for every entry a
+    mapping expression of the request can hold; flow-insensitive over the bindings and in-place fills of a named mapping."""
+    if e is None or (isinstance(e, ast.Constant) and e.value is None):
+        return []
+    if depth <= 0:
+        raise AnchorError(f"C17.R5: request mapping `{ast.unparse(e)[:50]}` is nested too deeply to inventory")
+    out: list = []
+    if isinstance(e, ast.Dict):
+        for k, v in zip(e.keys, e.values):
+            if k is None:
+                out += _entries(rs, v, site, kills, depth - 1)
+                continue
+            ks = rs.const_str(k)
+            if ks is None:
+                raise AnchorError(f"C17.R5: computed key `{ast.unparse(k)[:40]}` in a mapping of the stream request")
+            out.append((ks, v, site, kills))
+        return out
+    if isinstance(e, ast.Call) and call_name(e) == "dict":
+        for a in e.args:
+            out += _entries(rs, a, site, kills, depth - 1)
+        for kw in e.keywords:
+            out += _entries(rs, kw.value, site, kills, depth - 1) if kw.arg is None else [(kw.arg, kw.value, site, kills)]
+        return out
+    if isinstance(e, ast.IfExp):
+        return _entries(rs, e.body, site, kills, depth - 1) + _entries(rs, e.orelse, site, kills, depth - 1)
+    if isinstance(e, ast.BinOp) and isinstance(e.op, ast.BitOr):
+        return _entries(rs, e.left, site, kills, depth - 1) + _entries(rs, e.right, site, kills, depth - 1)
+    if isinstance(e, ast.Name):
+        binds = _binders(rs, e.id)
+        if not binds:
+            if rs.module_tree is not None:
+                mv = [st.value for st in rs.module_tree.body if isinstance(st, (ast.Assign, ast.AnnAssign)) and st.value is not None
+                      and any(isinstance(t, ast.Name) and t.id == e.id for t in (st.targets if isinstance(st, ast.Assign) else [st.target]))]
+                if len(mv) == 1:
+                    return _entries(rs, mv[0], None, [], depth - 1)
+            raise AnchorError(f"C17.R5: cannot read what the request mapping `{e.id}` holds (no assignment in the reader or at module level)")
+        for b in binds:
+            if isinstance(b, ast.AugAssign) and not isinstance(b.op, ast.BitOr):
+                raise AnchorError(f"C17.R5: request mapping `{e.id}` is updated by `{ast.unparse(b)[:40]}`")
+            out += _entries(rs, b.value, b, binds, depth - 1)
+        fills = []  # (key, value, statement)
+        for st in ast.walk(rs.scope):
+            if isinstance(st, ast.Assign):
+                for t in st.targets:
+                    if isinstance(t, ast.Subscript) and isinstance(t.value, ast.Name) and t.value.id == e.id:
+                        ks = rs.const_str(t.slice)
+                        if ks is None:
+                            raise AnchorError(f"C17.R5: `{ast.unparse(t)[:40]}` fills the request mapping under a computed key")
+                        fills.append((ks, st.value, st))
+            elif isinstance(st, ast.Expr) and isinstance(st.value, ast.Call) and isinstance(st.value.func, ast.Attribute) and isinstance(st.value.func.value, ast.Name) and st.value.func.value.id == e.id:
+                call = st.value
+                if call.func.attr == "update":
+                    for a in call.args:
+                        out += _entries(rs, a, st, binds + [st], depth - 1)
+                    for kw in call.keywords:
+                        out += _entries(rs, kw.value, st, binds + [st], depth - 1) if kw.arg is None else [(kw.arg, kw.value, st, binds + [st])]
+                elif call.func.attr == "setdefault" and len(call.args) == 2:
+                    ks = rs.const_str(call.args[0])
+                    if ks is None:
+                        raise AnchorError(f"C17.R5: `{ast.unparse(call)[:40]}` fills the request mapping under a computed key")
+                    fills.append((ks, call.args[1], st))
+        for ks, v, st in fills:
+            out.append((ks, v, st, binds + [s2 for k2, _v, s2 in fills if k2.lower() == ks.lower()]))
+        return out
+    raise AnchorError(f"C17.R5: cannot inventory the request mapping `{ast.unparse(e)[:60]}`")
+
+
+def _unwrap(e: ast.AST) -> ast.AST:
+    """Strip the conversions that carry a number unchanged into a request: str(x), int(x), f"{x}"."""
+    while True:
+        if isinstance(e, ast.Call) and call_name(e) in ("str", "int") and len(e.args) == 1 and not e.keywords:
+            e = e.args[0]
+        elif isinstance(e, ast.JoinedStr) and len(e.values) == 1 and isinstance(e.values[0], ast.FormattedValue) and e.values[0].format_spec is None and e.values[0].conversion in (-1, ord("s")):
+            e = e.values[0].value
+        else:
+            return e
+
+
+def _stale(rs: _Resume, site: ast.AST, kills: list, target: ast.AST) -> bool:
+    """A value computed at `site` is still in use at `target` after the cursor has moved: some assignment of the cursor lies on a
+    path site -> target that passes none of `kills` (the statements that compute the value afresh)."""
+    if site is target:
+        return False
+    s_nodes, t_nodes = rs.cfg.nodes_of(site), set(rs.cfg.nodes_of(target))
+    if not s_nodes or not t_nodes:
+        return True  # evaluated outside the reader's control flow, i.e. once
+    blocked = {n for k in kills for n in rs.cfg.nodes_of(k)}
+    r1 = rs.cfg.reach(s_nodes, blocked=blocked, include_starts=False)
+    moved = [n for n in rs.vnodes if n in r1]
+    return bool(moved) and bool(t_nodes & rs.cfg.reach(moved, blocked=blocked, include_starts=False))
+
+
+def _origins(rs: _Resume, e: ast.AST, at: ast.AST | None, depth: int = 4) -> set[str]:
+    """What a position expression evaluated at statement `at` denotes: 'cursor' (the reader's cursor at that moment), 'stale'
+    (the cursor as it was before it moved), 'consumer:…' (the attribute the iterator updates when it yields), or another source."""
+    e = _unwrap(e)
+    if isinstance(e, ast.Name):
+        if e.id == rs.V:
+            return {"cursor"}
+        binds = _binders(rs, e.id)
+        if binds and depth > 0 and not any(isinstance(b, ast.AugAssign) for b in binds):
+            out: set[str] = set()
+            for b in binds:
+                o = _origins(rs, b.value, b, depth - 1)
+                if "cursor" in o and (at is None or _stale(rs, b, binds, at)):
+                    o = (o - {"cursor"}) | {"stale"}
+                out |= o
+            return out
+        return {f"name:{e.id}"}
+    if isinstance(e, ast.Attribute) and e.attr in rs.consumer_attrs:
+        return {f"consumer:{ast.unparse(e)}"}
+    if isinstance(e, ast.IfExp):
+        return _origins(rs, e.body, at, depth) | _origins(rs, e.orelse, at, depth)
+    if isinstance(e, ast.Constant):
+        return {f"const:{e.value!r}"}
+    return {f"expr:{ast.unparse(e)[:50]}"}
+
+
+def _position_origins(rs: _Resume, val: ast.AST, site: ast.AST | None, kills: list) -> set[str]:
+    lab = _origins(rs, val, site)
+    if "cursor" in lab and (site is None or _stale(rs, site, kills, rs.request)):
+        lab = (lab - {"cursor"}) | {"stale"}
+    return lab
+
+
+def _position_reason(lab: set[str], V: str, part: str, key: str) -> str:
+    bad = sorted(lab - {"cursor"})
+    cons = [x.split(":", 1)[1] for x in bad if x.startswith("consumer:")]
+    if cons:
+        return (f"the {part} `{key}` is taken from `{cons[0]}`, the consumer-side cursor (advanced when the iterator yields an event), not from the reader's cursor `{V}` "
+                f"(advanced when an event is received and queued): events queued but not yet yielded when the connection drops are requested again — duplicates, out of order")
+    if "stale" in bad:
+        return f"the {part} `{key}` is computed from `{V}` before the cursor moves and is not computed afresh for the next request: a reconnect resumes from an older position (events delivered twice)"
+    return f"the {part} `{key}` is not the reader's cursor `{V}` (it is {', '.join(bad)}): the server resumes from a position other than the last event handed over"
 
 
 def _sources(e: ast.AST, assigns: list, stop: set[str], depth: int = 4) -> list[ast.AST]:
@@ -1081,6 +1376,18 @@ def _fixture_selfcheck(chk) -> None:
     found2 = len(g.must_pass(gt, g.nodes_of(enclosing_stmt(y)), w, include_starts=False))
     chk.floor("C17.R2", "planted lost-event paths reported on fixtures/c17/planted.py", found, 1)
     chk.floor("C17.R2", "planted yield-before-publish reported on fixtures/c17/planted.py", found2, 1)
+    # planted 3/4: a resume header from the consumer-side cursor / from the reader's cursor computed once before the retry loop
+    got = {}
+    for fname in ("reader_resumes_from_consumer_cursor", "reader_resumes_from_stale_cursor"):
+        f3 = fns[fname]
+        req = next(n for n in ast.walk(f3) if isinstance(n, ast.AsyncWith))
+        call = req.items[0].context_expr
+        rs = _Resume(f3, CFG(f3), "last_sequence", req, {"last_sequence", "_last_sequence"}, lambda e: e.value if isinstance(e, ast.Constant) and isinstance(e.value, str) else None)
+        labs = [(_position_origins(rs, v, site, kills), k) for kw in ("params", "headers") for k, v, site, kills in _entries(rs, kwarg(call, kw), req, [req])]
+        got[fname] = (sum(1 for l, k in labs if k.lower() == "last-event-id" and l != {"cursor"} and any(x.startswith("consumer:") or x == "stale" for x in l)),
+                      sum(1 for l, k in labs if k == "after_sequence" and l == {"cursor"}))
+    chk.floor("C17.R5", "planted consumer-cursor resume header reported on fixtures/c17/planted.py (and its query position accepted)", min(got["reader_resumes_from_consumer_cursor"]), 1)
+    chk.floor("C17.R5", "planted stale resume header reported on fixtures/c17/planted.py (and its query position accepted)", min(got["reader_resumes_from_stale_cursor"]), 1)
 
 
 # ============================================================================ twins
@@ -1144,6 +1451,10 @@ def _guard_classifier(id_cut: str = "len(_ID_FIELD)", id_extra: str = "", stale_
     return "".join(_I + x + "\n" for x in L)
 
 
+_RETRY_I = "                    "  # indentation of the retry loop's body
+_GET_CLIENT = _RETRY_I + "async with self._get_client() as client:\n                        try:\n                            async with client.stream(\n"
+_HEADERS = 'headers={"Connection": "keep-alive"},'
+
 TWINS = [
     # the classifier in guard style (prefix constants, `continue` guards, temporaries, named item)
     Twin("benign: guard-style classifier, prefix constants, named item", _C, *_multi(_C, [_FIELD_CONSTS, (_CLASSIFIER, _guard_classifier())]), None),
@@ -1196,4 +1507,21 @@ TWINS = [
     Twin("id is a running counter, not the stored sequence", _S, "                yield stored_event.sequence, envelope\n", "                yield after_sequence + 1, envelope\n", "C17.R4"),
     Twin("benign: local for the stored sequence", _S, "                yield stored_event.sequence, envelope\n", "                seq = stored_event.sequence\n                yield seq, envelope\n", None),
     Twin("benign: extra keyword on the JSON writer", _S, "payload = envelope.model_dump_json().translate(", "payload = envelope.model_dump_json(by_alias=False).translate(", None),
+    # R5 resume positions
+    Twin("reconnect header from the consumer's cursor (seed form: mapping filled under `attempts > 0`)", _C, *_multi(_C, [
+        (_GET_CLIENT, _RETRY_I + 'headers = {"Connection": "keep-alive"}\n' + _RETRY_I + "if attempts > 0:\n" + _RETRY_I + '    headers["Last-Event-ID"] = str(stream.last_sequence)\n' + _GET_CLIENT),
+        (_HEADERS, "headers=headers,")]), "C17.R5"),
+    Twin("resume header from the published attribute, lower-case name, inline", _C, _HEADERS, 'headers={"Connection": "keep-alive", "last-event-id": f"{stream._last_sequence}"},', "C17.R5"),
+    Twin("resume header computed once before the retry loop", _C, *_multi(_C, [
+        ("            attempts = 0\n            try:\n                while True:\n", '            attempts = 0\n            resume = {"Connection": "keep-alive", "Last-Event-ID": str(last_sequence)}\n            try:\n                while True:\n'),
+        (_HEADERS, "headers=resume,")]), "C17.R5"),
+    Twin("resume header from the initial position", _C, _HEADERS, 'headers={"Connection": "keep-alive", "Last-Event-ID": str(after_sequence)},', "C17.R5"),
+    Twin("benign: resume header from the reader's cursor, inline", _C, _HEADERS, 'headers={"Connection": "keep-alive", "Last-Event-ID": str(last_sequence)},', None),
+    Twin("benign: seed shape with the reader's cursor through a per-connection temporary", _C, *_multi(_C, [
+        (_GET_CLIENT, _RETRY_I + "position = str(last_sequence)\n" + _RETRY_I + 'headers = {"Connection": "keep-alive"}\n' + _RETRY_I + "if attempts > 0:\n" + _RETRY_I + '    headers["Last-Event-ID"] = position\n' + _GET_CLIENT),
+        (_HEADERS, "headers=headers,")]), None),
+    Twin("benign: consumer's cursor in a header the server does not read", _C, _HEADERS, 'headers={"Connection": "keep-alive", "X-Consumer-Position": str(stream.last_sequence)},', None),
+    Twin("benign: request headers from a module-level constant", _C, *_multi(_C, [
+        ("_QueueItem = _QueuedEvent | _QueuedError | _QueuedDone\n", '_QueueItem = _QueuedEvent | _QueuedError | _QueuedDone\n\n_STREAM_HEADERS = {"Connection": "keep-alive"}\n'),
+        (_HEADERS, "headers=_STREAM_HEADERS,")]), None),
 ]
